@@ -100,7 +100,14 @@ func c16Check(c c16Case) [][2]string {
 		return [][2]string{{"C16:rejected", "valid deprecated stanza rejected: " + err.Error()}}
 	}
 	var offs []time.Duration
+	zeroAt := map[int]bool{}
 	for _, s := range c.Offsets {
+		if s == "unset-clock" {
+			// The zero time.Time (a clock that has not been set): centuries before the epoch.
+			zeroAt[len(offs)] = true
+			offs = append(offs, 0)
+			continue
+		}
 		d, err := time.ParseDuration(s)
 		if err != nil {
 			panic(err)
@@ -118,6 +125,9 @@ func c16Check(c c16Case) [][2]string {
 			idx++
 		}
 		t := epoch.Add(offs[i])
+		if zeroAt[i] {
+			t = time.Time{}
+		}
 		reads = append(reads, t)
 		return t
 	}
@@ -201,6 +211,9 @@ func c16Check(c c16Case) [][2]string {
 				i = len(offs) - 1
 			}
 			reads = []time.Time{epoch.Add(offs[i])}
+			if zeroAt[i] {
+				reads = []time.Time{{}}
+			}
 		}
 		var v, p time.Duration
 		hasP := false
@@ -247,7 +260,7 @@ func c16Check(c c16Case) [][2]string {
 func TestVerifC16(t *testing.T) {
 	r := ev.Begin("C16", "enum")
 	defer r.End(t)
-	r.Rule = "cases = 2 epochs x 4 (valid,preferred) pairs x {static prefix, wildcard prefix, static route, wildcard route} x {deprecated, not} x all non-decreasing sequences (length<=L) over 10 instants around each deadline (before the epoch, at, 1ns before/after) x {one, two} clock readings per RA x (wildcards) the address / route source failing during build k, and the network being absent from the listing during build k (it appears later / comes back), for every k; documents parsed by the real config.Parse; non-trivial = deprecated and some reading within [0, 10*valid]; distinct = distinct case"
+	r.Rule = "cases = 2 epochs x 4 (valid,preferred) pairs x {static prefix, wildcard prefix, static route, wildcard route} x {deprecated, not} x all non-decreasing sequences (length<=L) over 10 instants around each deadline (before the epoch, at, 1ns before/after; also preceded by a reading of the zero time.Time, centuries before the epoch) x {one, two} clock readings per RA x (wildcards) the address / route source failing during build k, and the network being absent from the listing during build k (it appears later / comes back), for every k; documents parsed by the real config.Parse; non-trivial = deprecated and some reading within [0, 10*valid]; distinct = distinct case"
 	r.Assumptions = []string{"clock injected through Prefix.TimeNow / Route.TimeNow (Prepare installs time.Now in production)"}
 
 	if r.Replay != nil {
@@ -283,6 +296,14 @@ func TestVerifC16(t *testing.T) {
 						var offs []string
 						for _, s := range seq {
 							offs = append(offs, inst[s].String())
+						}
+						if dep && len(seq) <= 2 {
+							// ... and the same readings after one taken from a clock that was not set yet.
+							c := c16Case{Epoch: e, Life: li, Kind: kind, Dep: dep, Offsets: append([]string{"unset-clock"}, offs...), PerApply: 1}
+							r.Case(ev.JSON(c), true)
+							for _, v := range c16Check(c) {
+								r.Violation(v[0], v[1], c)
+							}
 						}
 						for _, per := range []int{1, 2} {
 							if per == 2 && len(seq) < 2 {
